@@ -1,6 +1,17 @@
 """
 Translator for the vocabularies (C10 / C15).
 
+ENTRY POINT FOR OTHER CHECKS (e.g. wpD's C03):   from harness import translate_vocab as TV;  TV.translate_into(chk)
+  * regenerates Generated/{Unimod,PsiMod,XlMod,Mono,ElementsC15}.lean from whatever tree `import peptacular` resolves to;
+  * idempotent: a file is rewritten only when its content changed (under a file lock), so calling it from several checks of
+    the same run, or concurrently, is harmless; the names of rewritten modules are appended (once) to `chk.generated_changed`;
+  * never raises: any exception while dumping the loaded tables (loader / data changed shape, inconsistent indexes,
+    non-finite masses, ...) is recorded as a broken correspondence item `translate_vocab` in `chk.disagreements`, the tables
+    generated last time stay in place, and False is returned;
+  * when the run is against a scratch tree ($VERIF_REPO) and something was rewritten, the tables of /repo are put back at
+    interpreter exit (atexit; only files this module writes are ever touched).
+  `TV.raw_obo_safe(chk, mod)` is the guarded form of the independent mini OBO reader.
+
 Regenerates, from the CURRENT tree of the repo under test (whatever `import peptacular` resolves to, i.e.
 /repo or $VERIF_REPO), the Lean modules
 
@@ -79,6 +90,12 @@ def entries_of(db):
     """the loaded table, in id_map order; checks that the name / synonym indexes are what 'last entry wins' over this
     list gives (that is how the Lean model looks entries up)"""
     es = list(db.id_map.values())
+    for e in es:
+        for attr in ('id', 'name', 'mono_mass', 'avg_mass', 'composition'):
+            if not hasattr(e, attr):
+                raise TranslateError(f'{getattr(db, "entry_type", "?")}: entry without attribute {attr!r}: {e!r}'[:300])
+        if not isinstance(e.id, str) or not isinstance(e.name, str) or not (e.composition is None or isinstance(e.composition, str)):
+            raise TranslateError(f'{getattr(db, "entry_type", "?")}: id / name / composition of an entry is not text: {e!r}'[:300])
     by_name = {}
     by_syn = {}
     by_id = {}
@@ -165,8 +182,41 @@ def write_if_changed(path, content):
     return True
 
 
+_RESTORE_REGISTERED = [False]
+
+
+def translate_into(chk):
+    """guarded entry point (see the module docstring): True if the tables are current, False if the dump failed"""
+    import atexit
+    import traceback
+    try:
+        changed = translate()
+    except Exception as e:  # noqa  (TranslateError or anything the loaded objects throw at us)
+        tb = traceback.format_exc()
+        chk.disagreements.append({'op': 'translate_vocab', 'line': 'loaded EntryDb / element tables -> Lean literals',
+                                  'impl': f'{type(e).__name__}: {e}'[:600] + ' | ' + tb[-600:], 'model': 'previous generated tables kept'})
+        return False
+    for m in changed:
+        if m not in chk.generated_changed:
+            chk.generated_changed.append(m)
+    if changed and os.environ.get('VERIF_REPO') and not _RESTORE_REGISTERED[0]:
+        _RESTORE_REGISTERED[0] = True
+        atexit.register(restore_after_scratch_run)
+    return True
+
+
+def raw_obo_safe(chk, mod):
+    """`raw_obo` that never raises: a failure is a reported correspondence break, the result is then None"""
+    try:
+        return raw_obo(mod)
+    except Exception as e:  # noqa
+        chk.disagreements.append({'op': 'raw_obo_reader', 'line': mod, 'impl': f'{type(e).__name__}: {e}'[:600],
+                                  'model': 'n/a'})
+        return None
+
+
 def translate():
-    """regenerate; returns the list of generated modules whose content changed"""
+    """regenerate; returns the list of generated modules whose content changed (may raise: use `translate_into`)"""
     import fcntl
     from peptacular.mods import mod_db_setup as S
     from peptacular import constants as K
